@@ -129,7 +129,9 @@ func runOrch(r *prng.R, s *out.Sink, tier string) {
 	if tier == "thorough" {
 		histories = 700
 	}
-	members := []uint16{1, 2, 3}
+	// four configured members, three of them take part in a session (threshold 2): node 4 is a member that is not a
+	// participant
+	members := []uint16{1, 2, 3, 4}
 	orchDerivedTopicPair(s, members)
 	for h := 0; h < histories && !orchStop; h++ {
 		func() {
@@ -191,7 +193,7 @@ func runOrch(r *prng.R, s *out.Sink, tier string) {
 				if r.Intn(4) == 0 {
 					// ---------------- KeyGen ---------------------------------------------------------------
 					kd := sha([]byte("DKG"))
-					km := membersSyncTopic(members)
+					km := membersSyncTopic(members[:3]) // the three agreed participants
 					ctx, cancel := context.WithCancel(context.Background())
 					done := make(chan error, 1)
 					go func() { _, err := rg.scheme.KeyGen(ctx, 3, 2); done <- err }()
@@ -268,6 +270,30 @@ func runOrch(r *prng.R, s *out.Sink, tier string) {
 						default: // success
 							g2.release <- true
 							b, _, _ := waitBackend(func() *scriptedBackend { rg.schemeRig.mu.Lock(); defer rg.schemeRig.mu.Unlock(); return rg.kg }, done)
+							// the same participant filter for the key generation (participants 1,2,3 of the members 1..4)
+							if b != nil {
+								reaches := func(src uint16) bool {
+									b.takeEvents()
+									rg.scheme.HandleMessage(&tss.IncMessage{Data: frame(3, 0, []byte{byte(src)}), Source: src, MsgType: uint8(tss.MsgTypeMPC), Topic: kd})
+									for _, e := range b.takeEvents() {
+										if e.kind == "onmsg" {
+											return true
+										}
+									}
+									return false
+								}
+								s.Count("dkg/participant-filter")
+								if reaches(2) {
+									if reaches(4) {
+										s.Violate("C12", "point-to-point traffic of member 4, which is not a participant of the key generation (participants 1,2,3), reached its protocol instance", strings.Join(hist, "\n"))
+									}
+									if reaches(9) {
+										s.Violate("C12", "point-to-point traffic of node 9, which is not a member, reached the protocol instance of a key generation", strings.Join(hist, "\n"))
+									}
+								} else {
+									s.Count("dkg/participant-filter/control-not-delivered")
+								}
+							}
 							b.release <- nil
 							if err := await(done); err != nil {
 								s.Violate("C12", "KeyGen failed on the success path: "+err.Error(), strings.Join(hist, "\n"))
@@ -368,6 +394,31 @@ func runOrch(r *prng.R, s *out.Sink, tier string) {
 					default: // success
 						g2.release <- true
 						b, _, _ := waitBackend(signer, done)
+						// while the protocol instance runs: point-to-point traffic on the session's topic from a participant
+						// (control), from a member that was not selected for this session, and from a node outside the membership
+						if b != nil {
+							reaches := func(src uint16) bool {
+								b.takeEvents()
+								rg.scheme.HandleMessage(&tss.IncMessage{Data: frame(3, 0, []byte{byte(src)}), Source: src, MsgType: uint8(tss.MsgTypeMPC), Topic: k1})
+								for _, e := range b.takeEvents() {
+									if e.kind == "onmsg" {
+										return true
+									}
+								}
+								return false
+							}
+							s.Count("sign/participant-filter")
+							if reaches(2) {
+								if reaches(4) {
+									s.Violate("C12", "point-to-point traffic of member 4, which is not a participant of the signing session (participants 1,2,3), reached its protocol instance", strings.Join(hist, "\n"))
+								}
+								if reaches(9) {
+									s.Violate("C12", "point-to-point traffic of node 9, which is not a member, reached the protocol instance of a signing session", strings.Join(hist, "\n"))
+								}
+							} else {
+								s.Count("sign/participant-filter/control-not-delivered")
+							}
+						}
 						b.release <- nil
 						if err := await(done); err != nil {
 							s.Violate("C12", "Sign failed on the success path: "+err.Error(), strings.Join(hist, "\n"))
